@@ -570,6 +570,67 @@ func TestAgedReceivers(t *testing.T) {
 	})
 }
 
+// TestComputedBounds: one indexing expression (one source location) whose index / bounds are written with prefix
+// operators and variables is evaluated several times with different values.
+func TestComputedBounds(t *testing.T) {
+	vt.Check(t, vt.N(4000, 300000), func(rt *rapid.T) {
+		base := genCase("aged", 9).Draw(rt, "case")
+		spell := func(v string) string {
+			return rapid.SampledFrom([]string{"-%s", "+%s", "%s", "-(%s)", "0 - %s", "-%s + 0"}).Draw(rt, "spelling "+v)
+		}
+		type form struct {
+			src   string
+			apply func(c *Case, a, b int64)
+		}
+		sa, sb := spell("a"), spell("b")
+		sign := func(sp string, v int64) int64 {
+			if strings.HasPrefix(sp, "-") || strings.HasPrefix(sp, "0 -") {
+				return -v
+			}
+			return v
+		}
+		pa, pb := fmt.Sprintf(sa, "a"), fmt.Sprintf(sb, "b")
+		forms := []form{
+			{"r[" + pa + "]", func(c *Case, a, b int64) { c.Form, c.I = "index", sign(sa, a) }},
+			{"r[" + pa + ":]", func(c *Case, a, b int64) { v := sign(sa, a); c.Form, c.Start, c.Stop, c.Step = "slice", &v, nil, nil }},
+			{"r[:" + pa + "]", func(c *Case, a, b int64) { v := sign(sa, a); c.Form, c.Start, c.Stop, c.Step = "slice", nil, &v, nil }},
+			{"r[::" + pa + "]", func(c *Case, a, b int64) { v := sign(sa, a); c.Form, c.Start, c.Stop, c.Step = "slice", nil, nil, &v }},
+			{"r[" + pa + ":" + pb + "]", func(c *Case, a, b int64) {
+				v, w := sign(sa, a), sign(sb, b)
+				c.Form, c.Start, c.Stop, c.Step = "slice", &v, &w, nil
+			}},
+			{"r[" + pa + "::" + pb + "]", func(c *Case, a, b int64) {
+				v, w := sign(sa, a), sign(sb, b)
+				c.Form, c.Start, c.Stop, c.Step = "slice", &v, nil, &w
+			}},
+			{"r[1:" + pa + ":" + pb + "]", func(c *Case, a, b int64) {
+				one, v, w := int64(1), sign(sa, a), sign(sb, b)
+				c.Form, c.Start, c.Stop, c.Step = "slice", &one, &v, &w
+			}},
+		}
+		f := forms[rapid.IntRange(0, len(forms)-1).Draw(rt, "form")]
+		in := interp.Shared()
+		env := object.NewEnclosedEnv(in.Global)
+		interp.Bind(env, "r", recvObj(base))
+		if o := in.Run("g := {|a, b| "+f.src+"}", interp.Opts{Env: env}); o.Kind != interp.Value {
+			rt.Skip("form does not parse")
+		}
+		for n := rapid.IntRange(2, 4).Draw(rt, "evaluations"); n > 0; n-- {
+			a, b := rapid.Int64Range(-4, int64(base.N)+3).Draw(rt, "a"), rapid.Int64Range(-3, 3).Draw(rt, "b")
+			c := base
+			c.Route, c.Pre = "aged", []string{fmt.Sprintf("g := {|a, b| %s}; g(%d, %d)   # evaluated before with other values", f.src, a, b)}
+			f.apply(&c, a, b)
+			o := in.Run(fmt.Sprintf("g(%d, %d)", a, b), interp.Opts{Env: env})
+			vt.Eval()
+			vt.Class("computed bounds at one source location")
+			vt.NonTrivial(fmt.Sprintf("%s|%d|%d|%s", f.src, a, b, key(c)), func() any { return fmt.Sprintf("g := {|a, b| %s}; g(%d, %d) => %s", f.src, a, b, o.Show()) })
+			if sig, detail := judge(&c, o); sig != "" {
+				vt.Fail(rt, "computed:"+sig, fmt.Sprintf("g := {|a, b| %s} called with (%d, %d) after other calls: %s", f.src, a, b, detail), c)
+			}
+		}
+	})
+}
+
 func TestReplay(t *testing.T) {
 	vt.RunReplays(t, func(data json.RawMessage) (string, string) {
 		var c Case
